@@ -403,12 +403,19 @@ func buildLinkEvent(graph *Graph, eventType, from, to string) (Event, error) {
 }
 
 func createTask(dir string, opts GlobalOptions, epicID string, isEpic bool, title, body string) (createOutput, error) {
-	eventsPath := getEventsPath(dir)
-	lockPath := filepath.Join(dir, "lock")
-	return createTaskWithDir(dir, opts, lockPath, eventsPath, epicID, isEpic, title, body)
+	return createTaskWithUpdates(dir, opts, epicID, isEpic, title, body, nil, "")
 }
 
-func createTaskWithDir(dir string, opts GlobalOptions, lockPath, eventsPath, epicID string, isEpic bool, title, body string) (createOutput, error) {
+// createTaskWithUpdates creates an item and applies the initial updates given
+// with it (state, claim, result attachment) in the same critical section: the
+// item is created with all of them or not at all.
+func createTaskWithUpdates(dir string, opts GlobalOptions, epicID string, isEpic bool, title, body string, updates map[string]string, agentID string) (createOutput, error) {
+	eventsPath := getEventsPath(dir)
+	lockPath := filepath.Join(dir, "lock")
+	return createTaskWithDir(dir, opts, lockPath, eventsPath, epicID, isEpic, title, body, updates, agentID)
+}
+
+func createTaskWithDir(dir string, opts GlobalOptions, lockPath, eventsPath, epicID string, isEpic bool, title, body string, updates map[string]string, agentID string) (createOutput, error) {
 	var output createOutput
 	err := withLock(lockPath, syscall.LOCK_EX, func() error {
 		verifPoint("section", "CreateItem", epicID)
@@ -454,7 +461,40 @@ func createTaskWithDir(dir string, opts GlobalOptions, lockPath, eventsPath, epi
 		if err != nil {
 			return err
 		}
-		if err := appendEvents(eventsPath, []Event{event}); err != nil {
+		events := []Event{event}
+		finalState := stateTodo
+		if len(updates) > 0 {
+			// Validate the initial updates against the item as it will exist, with
+			// the item visible in the graph (a result attachment looks it up).
+			created := &Task{
+				ID:        id,
+				UUID:      uuid,
+				EpicID:    payload.EpicID,
+				IsEpic:    isEpic,
+				State:     stateTodo,
+				Title:     title,
+				Body:      body,
+				CreatedAt: now,
+				UpdatedAt: now,
+			}
+			graph.Tasks[id] = created
+			updateEvents, err := buildUpdateEvents(graph, filepath.Dir(dir), id, created, updates, agentID, now)
+			if err != nil {
+				return err
+			}
+			events = append(events, updateEvents...)
+			for _, updateEvent := range updateEvents {
+				if updateEvent.Type != "state" {
+					continue
+				}
+				var data StateEvent
+				if err := json.Unmarshal(updateEvent.Data, &data); err != nil {
+					return err
+				}
+				finalState = data.NewState
+			}
+		}
+		if err := appendEvents(eventsPath, events); err != nil {
 			return err
 		}
 		kind := "task"
@@ -466,7 +506,7 @@ func createTaskWithDir(dir string, opts GlobalOptions, lockPath, eventsPath, epi
 			ID:        id,
 			UUID:      uuid,
 			EpicID:    payload.EpicID,
-			State:     stateTodo,
+			State:     finalState,
 			Title:     title,
 			Body:      body,
 			CreatedAt: payload.CreatedAt,
